@@ -409,6 +409,9 @@ pub struct Case {
   /// recorders subscribe to the connectable's observable()
   #[serde(default)]
   pub conn: Option<ConnKind>,
+  /// connectable cases: every recorder subscribes to `observable().take(n)`
+  #[serde(default)]
+  pub conn_take: Option<usize>,
   pub recorders: Vec<Vec<Reaction>>,
   pub actions: Vec<Action>,
 }
@@ -441,7 +444,7 @@ impl Case {
       "{}{} | hots={:?}{} | {} {}",
       self.root.show(),
       match &self.conn {
-        Some(k) => format!(".{:?}()", k).to_lowercase(),
+        Some(k) => format!(".{:?}(){}", k, self.conn_take.map_or(String::new(), |n| format!(".take({})", n))).to_lowercase(),
         None => String::new(),
       },
       self.hots,
